@@ -157,7 +157,9 @@ impl StreamDecoder {
     /// }
     /// ```
     pub fn decode(&mut self, buffer: &mut Buffer) -> Result<Option<RecordBatch>, ArrowError> {
-        while !buffer.is_empty() {
+        // A message without a body (e.g. a schema, or a batch without buffers) is complete
+        // once its metadata has been read: process it without waiting for further input
+        while !buffer.is_empty() || self.has_complete_empty_body() {
             match &mut self.state {
                 DecoderState::Header {
                     buf,
@@ -291,6 +293,15 @@ impl StreamDecoder {
             }
         }
         Ok(None)
+    }
+
+    /// Returns true if the metadata of a message with an empty body has been read
+    /// and the message has not been processed yet
+    fn has_complete_empty_body(&self) -> bool {
+        match &self.state {
+            DecoderState::Body { message } => message.as_ref().bodyLength() == 0,
+            _ => false,
+        }
     }
 
     /// Signal the end of stream
